@@ -83,7 +83,11 @@ impl Parser {
         if limit == 0
             && fields
                 .iter()
-                .all(|expr| expr.get_required_fields().is_empty() && !expr.has_aggregate_function())
+                .all(|expr| {
+                    expr.get_required_fields().is_empty()
+                        && !expr.has_aggregate_function()
+                        && !expr.reads_entry()
+                })
         {
             limit = 1;
         }
